@@ -25,6 +25,7 @@ Fixpoint xval_eqb (a b : xval) {struct a} : bool :=
        | _, _ => false
        end) x y
   | XOpaque, XOpaque => true
+  | XBadObj c1, XBadObj c2 => text_eqb (qname c1) (qname c2)
   | _, _ => false
   end.
 
@@ -61,7 +62,7 @@ Record case := {
   cs_before : nat; cs_out : outcome; cs_server_open : bool; cs_client_conn : bool; cs_next_ok : bool }.
 
 Definition model_run (c : case) : result :=
-  run (cs_quirks c) gen_tables gen_facts std_codec std_ctor (cs_ser c) (cs_kind c) (cs_exc c) tb_marker.
+  run (cs_quirks c) gen_tables gen_facts std_codec (std_serr gen_tables) std_ctor (cs_ser c) (cs_kind c) (cs_exc c) tb_marker.
 
 (* a class the harness says is whitelisted must carry the MRO the generated table has *)
 Definition class_consistent (ci : cinfo) : bool :=
